@@ -32,14 +32,14 @@
 EXTENDS Naturals, Sequences, FiniteSets, TLC
 
 Ids(h) == 1..h.n
-Range(s) == {s[k] : k \in DOMAIN s}
+Elems(s) == {s[k] : k \in DOMAIN s}
 NoDup(s) == \A i, j \in DOMAIN s : i < j => s[i] # s[j]
 IsClass(h, c) == h.kind[c] = "class"
 
 ---------------------------------------------------------------------------------
 (* The source relation and its closure                                            *)
 
-Parents(h, c) == Range(h.bases[c])
+Parents(h, c) == Elems(h.bases[c])
 
 RECURSIVE UpClosure(_, _, _)
 UpClosure(h, S, k) ==
@@ -74,14 +74,14 @@ Depth(h) ==
 ---------------------------------------------------------------------------------
 (* Clause 1/2: ancestors = closure, descendants = inverse (as sets, and stored without repeats)  *)
 
-AncestorsAreClosure(h, o) == LET A == AncMap(h) IN \A c \in Ids(h) : Range(o.anc[c]) = A[c]
+AncestorsAreClosure(h, o) == LET A == AncMap(h) IN \A c \in Ids(h) : Elems(o.anc[c]) = A[c]
 AncestorsNoDup(h, o) == \A c \in Ids(h) : NoDup(o.anc[c])
 DescendantsAreInverse(h, o) ==
-    LET A == AncMap(h) IN \A c \in Ids(h) : Range(o.desc[c]) = {d \in Ids(h) : c \in A[d]}
+    LET A == AncMap(h) IN \A c \in Ids(h) : Elems(o.desc[c]) = {d \in Ids(h) : c \in A[d]}
 DescendantsNoDup(h, o) == \A c \in Ids(h) : NoDup(o.desc[c])
 ConcreteDescendantsRight(h, o) ==
     LET A == AncMap(h)
-    IN  \A c \in Ids(h) : IsClass(h, c) => Range(o.cdesc[c]) = {d \in Ids(h) : c \in A[d] /\ ~h.abstract[d]}
+    IN  \A c \in Ids(h) : IsClass(h, c) => Elems(o.cdesc[c]) = {d \in Ids(h) : c \in A[d] /\ ~h.abstract[d]}
 ConcreteDescendantsNoDup(h, o) == \A c \in Ids(h) : NoDup(o.cdesc[c])
 
 ---------------------------------------------------------------------------------
@@ -111,7 +111,7 @@ AncestorsFirst(h, obs) ==
 OwnOrderKept(h, own, s, dir) ==
     \A i, j \in DOMAIN s :
         (i < j /\ s[i].owner = s[j].owner /\ s[i].owner \in Ids(h)
-         /\ s[i].name \in Range(own[s[i].owner]) /\ s[j].name \in Range(own[s[i].owner]))
+         /\ s[i].name \in Elems(own[s[i].owner]) /\ s[j].name \in Elems(own[s[i].owner]))
             => IF dir = "textual"
                THEN Pos(own[s[i].owner], s[i].name) < Pos(own[s[i].owner], s[j].name)
                ELSE Pos(own[s[i].owner], s[i].name) > Pos(own[s[i].owner], s[j].name)
@@ -136,7 +136,7 @@ AllPropNames(h, c) == {pr[2] : pr \in Pairs(h, ClassOnly(h, h.props), c)}
 CtorAssignsEvery(h, o) ==
     LET A == AncMap(h)
     IN  \A c \in Ids(h) : IsClass(h, c) =>
-            Range(o.ctor[c]) = UNION {Range(h.props[a]) : a \in {x \in A[c] \cup {c} : IsClass(h, x)}}
+            Elems(o.ctor[c]) = UNION {Elems(h.props[a]) : a \in {x \in A[c] \cup {c} : IsClass(h, x)}}
 CtorAssignsAtMostOnce(h, o) == \A c \in Ids(h) : NoDup(o.ctor[c])
 CtorNoSuperCalls(h, o) == \A c \in Ids(h) : o.super[c] = 0
 
@@ -153,10 +153,10 @@ InterfacesExact(h, o) ==
 (* after all of its declared bases.                                                              *)
 
 Topological(h, o) ==
-    /\ Range(o.topo) = Ids(h)
+    /\ Elems(o.topo) = Ids(h)
     /\ NoDup(o.topo)
     /\ \A c \in Ids(h) : \A p \in Parents(h, c) :
-          (c \in Range(o.topo) /\ p \in Range(o.topo)) => Pos(o.topo, p) < Pos(o.topo, c)
+          (c \in Elems(o.topo) /\ p \in Elems(o.topo)) => Pos(o.topo, p) < Pos(o.topo, c)
 
 ---------------------------------------------------------------------------------
 (* Clause 7: the model-type setting goes down the hierarchy: a class serializes its model type   *)
@@ -174,11 +174,11 @@ ModelTypeConsistentSource(h) ==
 ---------------------------------------------------------------------------------
 (* Source-level reasons for which heritage is undefined and the front end must refuse the model *)
 (* (used to state when the algorithm may reject; C05 itself only speaks about accepted models)   *)
-MethodNames(h, S) == UNION {Range(h.methods[a]) : a \in S}
+MethodNames(h, S) == UNION {Elems(h.methods[a]) : a \in S}
 MethodClash(h) ==
     \E d \in Ids(h) : IsClass(h, d) /\
         \/ \E p, q \in Parents(h, d) : p # q /\ (MethodNames(h, Lineage(h, p)) \cap MethodNames(h, Lineage(h, q))) # {}
-        \/ (Range(h.methods[d]) \cap MethodNames(h, Ancestors(h, d))) # {}
+        \/ (Elems(h.methods[d]) \cap MethodNames(h, Ancestors(h, d))) # {}
 
 ---------------------------------------------------------------------------------
 (* Structural fingerprints of violations (known-findings keys are computed here, by the spec).   *)
@@ -192,9 +192,9 @@ PathSum(h, bs, k, a) == IF k > Len(bs) THEN 0 ELSE PathCount(h, bs[k], a) + Path
 \* number of inheritance paths from c up to a (only meaningful for acyclic h)
 PathCount(h, c, a) == IF c = a THEN 1 ELSE PathSum(h, h.bases[c], 1, a)
 
-OwnerOfProp(h, c, p) == {a \in Lineage(h, c) : IsClass(h, a) /\ p \in Range(h.props[a])}
+OwnerOfProp(h, c, p) == {a \in Lineage(h, c) : IsClass(h, a) /\ p \in Elems(h.props[a])}
 AssignCount(h, a, p) == Cardinality({k \in DOMAIN h.ctor[a] : h.ctor[a][k].t = "assign" /\ h.ctor[a][k].p = p})
-WrittenTwice(h) == \E a \in Ids(h) : IsClass(h, a) /\ \E p \in Range(h.props[a]) : AssignCount(h, a, p) >= 2
+WrittenTwice(h) == \E a \in Ids(h) : IsClass(h, a) /\ \E p \in Elems(h.props[a]) : AssignCount(h, a, p) >= 2
 
 AncRepeatsByPaths(h, o) ==
     \A c \in Ids(h) : \A a \in Repeats(o.anc[c]) : a \in Ids(h) /\ PathCount(h, c, a) >= 2
